@@ -185,7 +185,7 @@ def main():
         c.finish()
     exe = common.build_ocaml(PID)
     quick = c.tier == "quick"
-    nprog = int(os.environ.get("VERIF_C01_N", 72 if quick else 2500))
+    nprog = int(os.environ.get("VERIF_C01_N", 64 if quick else 2500))
     shrunk_kinds = set()
     rng = c.rng
     jobs = []
